@@ -24,6 +24,14 @@ pub assume_specification<T: PartialEq> [<[T]>::contains] (s: &[T], x: &T) -> (r:
 pub broadcast axiom fn axiom_slice_contains_str<'a>(s: Seq<&'a str>, x: &'a str)
     ensures #[trigger] slice_contains_spec::<&'a str>(s, x) == exists|i: int| 0 <= i < s.len() && (#[trigger] s[i])@ == x@;
 
+// TRUSTED[slice-contains-structural]: for element types whose PartialEq is derived (structural), `contains` is membership.
+// Instantiated only by units that extract such a type and keep its derive(PartialEq); the axiom itself is generic.
+pub broadcast axiom fn axiom_slice_contains_var<T>(s: Seq<T>, x: T)
+    requires structural_eq::<T>(),
+    ensures #[trigger] slice_contains_spec::<T>(s, x) == s.contains(x);
+/// marker: T's PartialEq is the derived, structural one (asserted per type by the unit that extracts it)
+pub uninterp spec fn structural_eq<T>() -> bool;
+
 /// the str value with a given text
 pub uninterp spec fn str_of(v: Seq<char>) -> &'static str;
 // TRUSTED[str-view-injective]: a str value is determined by its text (spec-level strs are immutable texts); needed because
